@@ -177,7 +177,8 @@ theorem rep_return {G : GCtx} (ok : G.OK) {pi : PInfo} (hpi : pi ∈ G.procs) (s
             refine ⟨id, a, hr.symm, ?_, by unfold memWords at *; omega, hm⟩
             show G.locOf pi sp n = _
             rw [ok.gloc_ok pi hpi _ n hn]; exact ha
-    acells := hg.acells }
+    acells := hg.acells
+    strs := hg.strs }
 
 def PInfo.callKind (pj : PInfo) : CallKind := if pj.p.isFunc then .func pj.p.name else .proc pj.p.name
 
